@@ -124,10 +124,12 @@ func (c *simCluster) changeConfigWith(id uint64, f func(cfg *Config)) *simTask {
 	f(&nc)
 	t := ChangeConfig(nc).(changeConfig)
 	st := c.newTask(id, t, "changeConfig")
+	c.evImp = actionIDs(nc)
 	c.run(n, "changeConfig", fmt.Sprintf("(ELeader (LChangeConfig %d %s))", st.id, coqConfig(nc)), func() (response, []string) {
 		n.l.onChangeConfig(t)
 		return nil, nil
 	})
+	c.evImp = nil
 	return st
 }
 
